@@ -246,37 +246,119 @@ def r4_repr(rep, ctx):
     rep.floor("C20.R4", "display sites", n, 5)
 
 
+MAPF = ("field", "_category_to_unit_and_exps")
+
+
+def _entry_path(t):
+    """t taken out of an entry of `<map>.items()` / `.values()` -> (map term, path inside the (key, [unit, exp]) entry)."""
+    path = []
+    while t[0] == "sub" and t[2][0] == "const" and isinstance(t[2][1], int):
+        path.insert(0, t[2][1])
+        t = t[1]
+    if t[0] == "elem" and t[1][0] == "call" and t[1][1][0] == "attr" and t[1][1][2] in ("items", "values") and not t[1][2]:
+        if t[1][1][2] == "values":
+            path.insert(0, 1)
+        return t[1][1][1], tuple(path)
+    return None, None
+
+
+def _accumulations(m, fn, res):
+    """Statements `D[K] = D.get(K, 0) + X` / `D[K] += X` inside a loop -> [{st, dict, key, added, loop, conditional}]."""
+    out = []
+    for st in own_statements(fn.node):
+        tgt = None
+        if isinstance(st, ast.Assign) and len(st.targets) == 1 and isinstance(st.targets[0], ast.Subscript):
+            tgt = st.targets[0]
+        elif isinstance(st, ast.AugAssign) and isinstance(st.target, ast.Subscript) and isinstance(st.op, ast.Add):
+            tgt = st.target
+        if tgt is None or not isinstance(tgt.value, ast.Name):
+            continue
+        loop, conditional, p = None, False, getattr(st, "_parent", None)
+        while p is not None and p is not fn.node:
+            if isinstance(p, (ast.If, ast.Try, ast.While)):
+                conditional = True
+            if isinstance(p, ast.For):
+                loop = p
+                break
+            p = getattr(p, "_parent", None)
+        if loop is None:
+            continue
+        K = res.term(tgt.slice)
+        if isinstance(st, ast.AugAssign):
+            added = res.term(st.value)
+        else:
+            v = res.term(st.value)
+            if not (v[0] == "op" and v[1] == "Add" and len(v[2]) == 2):
+                continue
+
+            def is_get(x):
+                return x[0] == "call" and x[1][0] == "attr" and x[1][2] == "get" and len(x[2]) == 2 and x[2][0] == K and x[2][1] == ("const", 0)
+
+            a_, b_ = v[2]
+            added = b_ if is_get(a_) else a_ if is_get(b_) else None
+            if added is None:
+                continue
+        out.append({"st": st, "dict": tgt.value, "key": K, "added": added, "loop": loop, "conditional": conditional})
+    return out
+
+
+def _filtered_views(fn):
+    """Comprehensions over the composing map that drop entries (have an `if`)."""
+    return [x for x in ast.walk(fn.node) if isinstance(x, (ast.GeneratorExp, ast.ListComp, ast.SetComp, ast.DictComp))
+            and any(g.ifs for g in x.generators) and any(isinstance(y, ast.Attribute) and y.attr == "_category_to_unit_and_exps" for g in x.generators for y in ast.walk(g.iter))]
+
+
+def _sums_exponents(m, fn, res, maps, key_pred, what):
+    """An accumulation over every entry of the composing map that adds the entry's exponent under a key
+    accepted by key_pred(map, key term).  Returns the accumulation or None; raises when entries are filtered."""
+    for acc in _accumulations(m, fn, res):
+        am, ap = _entry_path(acc["added"])
+        if am is None or ap != (1, 1) or not any(am == x for x in maps):
+            continue
+        if not key_pred(am, acc["key"]):
+            continue
+        if acc["conditional"] or _filtered_views(fn):
+            raise AnalysisError("%s: %s skips some entries of the composing map: the checker cannot tell whether only irrelevant ones are dropped" % (fn.qual, what))
+        return acc
+    return None
+
+
+def _derives_from(res, expr, acc):
+    """Does expr read the dictionary filled by the accumulation (same defining statement of the local)?"""
+    want = {id(st) for st, _ in res.origins(acc["dict"])}
+    for x in ast.walk(expr):
+        if isinstance(x, ast.Name) and isinstance(x.ctx, ast.Load):
+            if {id(st) for st, _ in res.origins(x)} & want:
+                return True
+    return False
+
+
 def r5_sources(rep, ctx):
     m = ctx.model
-    # GetUnitName: every return is _MakeStr(...) fed from the composing map with the exponent
+    # GetUnitName: every return is _MakeStr(...) over the per-unit-name sums of the composing map's exponents
     fn = m.method("Quantity", "GetUnitName")
     res = Resolver(m, fn)
     rets = [r for r in own_nodes(fn.node) if isinstance(r, ast.Return) and r.value is not None]
     if not rets:
         raise AnalysisError("Quantity.GetUnitName has no return")
+
+    def unit_name_key(mp, k):
+        return any(_entry_path(x) == (mp, (1, 0)) for x in walk(k))
+
+    acc = _sums_exponents(m, fn, res, [MAPF], unit_name_key, "the accumulation of GetUnitName")
     for r in rets:
         t = res.term(r.value)
         for a in alternatives(t):
             ok = a[0] == "call" and a[1] == ("field", "_MakeStr")
-            fed = ok and any(s == ("field", "_category_to_unit_and_exps") for s in walk(a)) or (ok and _loop_feeds(fn, "_category_to_unit_and_exps")) or (ok and _iterates_map(fn.node))
+            fed = ok and acc is not None and _derives_from(res, r.value, acc)
             rep.check(bool(ok and fed), "C20.R5", "GetUnitName:%s" % norm(ast.unparse(r))[:60],
                       "the unit name is _MakeStr over pairs gathered from the composing map",
                       "GetUnitName can return %s, which is not built from this quantity's composing map (a memo keyed by less than the map, or a shortcut)" % show(a, 80), node=r, fn=fn)
-    # the accumulation inside GetUnitName uses the exponent of each entry
-    uses_exp = False
-    for lp in own_statements(fn.node):
-        if isinstance(lp, ast.For) and any(isinstance(x, ast.Attribute) and x.attr == "_category_to_unit_and_exps" for x in ast.walk(lp.iter)):
-            names = [x.id for x in ast.walk(lp.target) if isinstance(x, ast.Name)]
-            expv = names[-1]
-            for st in own_statements(lp):
-                if isinstance(st, ast.Assign) and isinstance(st.targets[0], ast.Subscript) and any(isinstance(x, ast.Name) and x.id == expv for x in ast.walk(st.value)):
-                    uses_exp = True
-    if not uses_exp:
-        uses_exp = _uses_exponent_of_map_entries(fn.node) and any(_accumulating_helper(m, fn, c) for c in ast.walk(fn.node))
-    rep.check(uses_exp, "C20.R5", "GetUnitName:accumulates-exponents", "each entry's exponent is accumulated per unit name", "GetUnitName does not accumulate the exponents of the composing map", fn=fn)
+    rep.check(acc is not None, "C20.R5", "GetUnitName:accumulates-exponents", "each entry's exponent is accumulated per unit name", "GetUnitName does not accumulate the exponents of the composing map", fn=fn)
     # derived branch of __init__: _category, _quantity_type, _unit come from the builders fed by the map
     init = m.method("Quantity", "__init__")
     ires = Resolver(m, init)
+    PCAT = ("param", init.params.index("category"), "category")
     want = {"_category": "_MakeStr", "_quantity_type": "_MakeStr", "_unit": "_CreateUnitsWithJoinedExponentsString"}
     seen = {}
     for st in own_statements(init.node):
@@ -284,34 +366,38 @@ def r5_sources(rep, ctx):
             for t in st.targets:
                 if isinstance(t, ast.Attribute) and isinstance(t.value, ast.Name) and t.value.id == init.params[0] and t.attr in want and t.attr not in seen:
                     seen[t.attr] = st
+
+    def qt_key(mp, k):
+        return any(x[0] == "call" and x[1][0] == "attr" and x[1][2] == "GetCategoryQuantityType" and x[2] and _entry_path(x[2][0]) == (mp, (0,)) for x in walk(k))
+
+    iacc = _sums_exponents(m, init, ires, [MAPF, PCAT], qt_key, "the accumulation of the quantity-type string")
     for attr, builder in want.items():
         st = seen.get(attr)
         if st is None:
             raise AnalysisError("Quantity.__init__: derived store of %s not found" % attr)
         t = ires.term(st.value)
         ok = all(a[0] == "call" and a[1] == ("field", builder) for a in alternatives(t))
-        fed = builder != "_MakeStr" or any(s == ("field", "_category_to_unit_and_exps") or (s[0] == "param" and s[2] == "category") for s in walk(t)) \
-            or any(_filled_from_map(init, x.id) for x in ast.walk(st.value) if isinstance(x, ast.Name))
+        if builder != "_MakeStr":
+            fed = True
+        elif attr == "_quantity_type":
+            fed = iacc is not None and _derives_from(ires, st.value, iacc)
+        else:
+            # the category string lists every (category, exponent) entry of the map
+            fed = any(x[0] == "gen" and x[1][0] == "tuple" and len(x[1][1]) == 2 and _entry_path(x[1][1][0])[1] == (0,) and _entry_path(x[1][1][1])[1] == (1, 1)
+                      and _entry_path(x[1][1][0])[0] in (MAPF, PCAT) for x in walk(t)) and not _filtered_views(init)
+            if not fed and any(x[0] == "gen" for x in walk(t)) is False:
+                raise AnalysisError("Quantity.__init__: the category string is not built from a comprehension over the composing map (idiom changed)")
         rep.check(ok and fed, "C20.R5", "Quantity.__init__:derived:%s" % attr, "derived %s is %s over the composing map" % (attr, builder),
                   "derived %s is %s" % (attr, show(t, 100)), node=st, fn=init)
     # joined exponents: one accumulator keyed by unit over *all* entries of the composing map
     je = m.method("Quantity", "GetComposingUnitsJoiningExponents")
-    loops_ = [lp for lp in own_statements(je.node) if isinstance(lp, ast.For) and any(isinstance(x, ast.Attribute) and x.attr == "_category_to_unit_and_exps" for x in ast.walk(lp.iter))]
-    if len(loops_) != 1 and _uses_exponent_of_map_entries(je.node) and any(_accumulating_helper(m, je, c) for c in ast.walk(je.node)):
-        rep.ok("C20.R5", "joined-exponents:accumulate-by-unit", "exponents are accumulated per unit by a helper fed with every (unit, exponent) entry of the map", fn=je)
-        loops_ = None
-    elif len(loops_) != 1:
+    jres = Resolver(m, je)
+    accs = _accumulations(m, je, jres)
+    jacc = _sums_exponents(m, je, jres, [MAPF], lambda mp, k: True, "the accumulation of the joined exponents")
+    if jacc is None and not accs:
         raise AnalysisError("Quantity.GetComposingUnitsJoiningExponents: the accumulation loop over the composing map was not found (another joining algorithm: the checker cannot tell whether non-adjacent repeats of a unit are joined)")
-    acc_ok = False
-    if loops_:
-        lp_ = loops_[0]
-        names_ = [x.id for x in ast.walk(lp_.target) if isinstance(x, ast.Name)]
-        unit_v, exp_v = names_[-2], names_[-1]
-        for st in own_statements(lp_):
-            if isinstance(st, ast.Assign) and isinstance(st.targets[0], ast.Subscript) and ast.unparse(st.targets[0].slice) == unit_v and any(isinstance(x, ast.Name) and x.id == exp_v for x in ast.walk(st.value)):
-                acc_ok = True
-    if loops_ is not None:
-        rep.check(acc_ok, "C20.R5", "joined-exponents:accumulate-by-unit", "exponents are accumulated in a mapping keyed by the unit over all entries", "the joined exponents are not accumulated per unit", fn=je)
+    acc_ok = jacc is not None and _entry_path(jacc["key"]) == (MAPF, (1, 0))
+    rep.check(acc_ok, "C20.R5", "joined-exponents:accumulate-by-unit", "exponents are accumulated in a mapping keyed by the unit over all entries", "the joined exponents are not accumulated per unit", fn=je)
     # the unit builder iterates the joined composing units of this quantity
     ub = m.method("Quantity", "_CreateUnitsWithJoinedExponentsString")
     loops = [lp for lp in own_statements(ub.node) if isinstance(lp, ast.For)]
@@ -319,71 +405,3 @@ def r5_sources(rep, ctx):
     ok = bool(loops) and all(any(a == ("call", ("field", "GetComposingUnitsJoiningExponents"), (), ()) for a in alternatives(ures.term(lp.iter))) for lp in loops)
     rep.check(ok, "C20.R5", "unit-builder:iterates-joined-units", "the unit builder iterates GetComposingUnitsJoiningExponents() in every loop",
               "a loop of the unit builder does not iterate the joined composing units", fn=ub)
-
-
-def _loop_feeds(fn, field):
-    for lp in own_statements(fn.node):
-        if isinstance(lp, ast.For) and any(isinstance(x, ast.Attribute) and x.attr == field for x in ast.walk(lp.iter)):
-            return True
-    return False
-
-
-def _filled_from_map(fn, name):
-    """Is local `name` filled by subscript stores that use the exponent inside a loop over the composing map?"""
-    for lp in own_statements(fn.node):
-        if isinstance(lp, ast.For) and any(isinstance(x, ast.Attribute) and x.attr == "_category_to_unit_and_exps" for x in ast.walk(lp.iter)):
-            names = [x.id for x in ast.walk(lp.target) if isinstance(x, ast.Name)]
-            if not names:
-                continue
-            expv = names[-1]
-            for st in own_statements(lp):
-                if isinstance(st, ast.Assign) and isinstance(st.targets[0], ast.Subscript) and isinstance(st.targets[0].value, ast.Name) \
-                        and st.targets[0].value.id == name and any(isinstance(x, ast.Name) and x.id == expv for x in ast.walk(st.value)):
-                    return True
-    return False
-
-
-def _iterates_map(node):
-    """Does this function / expression iterate the composing map (loop or comprehension)?"""
-    for x in ast.walk(node):
-        it = None
-        if isinstance(x, ast.For):
-            it = x.iter
-        elif isinstance(x, ast.comprehension):
-            it = x.iter
-        if it is not None and any(isinstance(y, ast.Attribute) and y.attr == "_category_to_unit_and_exps" for y in ast.walk(it)):
-            return True
-    return False
-
-
-def _uses_exponent_of_map_entries(node):
-    """A loop/comprehension over the map's items that binds (.., (unit, exp)) and uses exp."""
-    for x in ast.walk(node):
-        tgt, body = None, []
-        if isinstance(x, ast.For) and any(isinstance(y, ast.Attribute) and y.attr == "_category_to_unit_and_exps" for y in ast.walk(x.iter)):
-            tgt, body = x.target, x.body
-        elif isinstance(x, (ast.GeneratorExp, ast.ListComp)) and any(isinstance(y, ast.Attribute) and y.attr == "_category_to_unit_and_exps" for g in x.generators for y in ast.walk(g.iter)):
-            tgt, body = x.generators[0].target, [x.elt]
-        if tgt is None:
-            continue
-        names = [y.id for y in ast.walk(tgt) if isinstance(y, ast.Name)]
-        if names and any(isinstance(y, ast.Name) and y.id == names[-1] and isinstance(y.ctx, ast.Load) for b in body for y in ast.walk(b)):
-            return True
-    return False
-
-
-def _accumulating_helper(m, fn, call):
-    """`self.<new helper>(<pairs>)` where the helper sums the second component per first component."""
-    if not (isinstance(call, ast.Call) and isinstance(call.func, ast.Attribute) and isinstance(call.func.value, ast.Name)):
-        return False
-    g = m.lookup(fn.cls, call.func.attr) if fn.cls else None
-    if g is None:
-        return False
-    for lp in own_statements(g.node):
-        if isinstance(lp, ast.For):
-            names = [y.id for y in ast.walk(lp.target) if isinstance(y, ast.Name)]
-            if len(names) >= 2:
-                for st in own_statements(lp):
-                    if isinstance(st, ast.Assign) and isinstance(st.targets[0], ast.Subscript) and ast.unparse(st.targets[0].slice) == names[0] and any(isinstance(y, ast.Name) and y.id == names[-1] for y in ast.walk(st.value)):
-                        return True
-    return False
